@@ -67,18 +67,8 @@ func setFailureMarkers(e *Env, s *spec.Spec, failing bool) {
 	}
 }
 
-// RunC05: failures are contained (keep-going / fail-fast) and never cached.
-func RunC05(tier string) int {
-	run := report.New("C05", tier, "exploration",
-		"seeded random graphs x random failing subsets x failure kinds (non-zero exit, timeout, missing declared output, failing output check) x keep-going/fail-fast x num_workers; "+
-			"every history = failing build, identical follow-up build (failed targets must be attempted again), then a build after the failure causes are removed; "+
-			"non-trivial = at least one target failed, one dependant was skipped and one unaffected target was built; distinct = shape + failing set + kinds + mode")
-	st, err := Prepare(run, false)
-	if err != nil {
-		run.Infra(err.Error())
-		return run.Finish()
-	}
-	defer st.Cleanup()
+// C05Part is the process-level part of C05 (the report is owned by the caller).
+func C05Part(run *report.Run, st *Setup, tier string) {
 	n := tierN(tier, 48, 600)
 	Parallel(n, func(i int) {
 		r := rng.Derive(uint64(run.Seed), "C05", fmt.Sprint(i))
@@ -167,15 +157,13 @@ func RunC05(tier string) int {
 				}
 				if failFast {
 					evs := ReadHookLog(hookLog)
-					found, after := AttemptsAfter(evs, "walk.failfast")
+					found, after := StartedAfter(evs, "walk.failfast", obs.Started)
 					run.Count("hook_events", len(evs))
 					if found {
 						run.Count("failfast_observed", 1)
 						for _, l := range after {
-							if obs.Started[l] > 0 {
-								report1(Violation{"exec", "started-after-failfast", fmt.Sprintf("%s was started after fail-fast cancelled the build", l)}, obs)
-								bad = true
-							}
+							report1(Violation{"exec", "started-after-failfast", fmt.Sprintf("%s was started after fail-fast cancelled the build", l)}, obs)
+							bad = true
 						}
 					}
 				}
@@ -189,6 +177,4 @@ func RunC05(tier string) int {
 		}
 		run.Sample(map[string]any{"case": i, "shape": s.Shape(), "failing": fl, "fail_fast": failFast, "history": env.Log})
 	})
-	run.Assume("exec.CommandContext refuses to start a command once its context is cancelled, so a command that started after the walk.failfast event is a violation, while one attempted before it may still run")
-	return run.Finish()
 }
